@@ -90,6 +90,9 @@ def jobs(prop, tier):
         def IDS(cfg, **kw):
             return dict(mode="edge", cfg=cfg, kind="ids", n=0, rate=1.0, tool="idscheck", dump_module="OrdaIdsGrid.tla", prefix="IDS", **kw)
         ids = [IDS("ids_points", shards=1), IDS("ids_pairs"), IDS("ids_ids"), IDS("ids_collide")]
+        # the server's own replica issues operations too (REST patch): they must be ordered after the stored log
+        ids += [dict(mode="edge", cfg=c, kind="doc", n=2, rate=(0.25 if q else 1.0), tool="snapreplay", dump_module="OrdaSnapDump.tla")
+                for c in ("snap_patch_edge", "snap_nosnap_edge")]
         return multi(tier) + extra + ids + traces(tier)
     if prop == "C05":
         if q:
